@@ -26,7 +26,7 @@ type printCase struct {
 }
 
 func runC09(c *Ctx) {
-	n := c.N(300, 12000)
+	n := c.N(1500, 12000)
 	dir := filepath.Join(c.WorkDir, "c09")
 	os.MkdirAll(dir, 0o755)
 	runC09Text(c, dir)
@@ -209,7 +209,7 @@ func c09Mutate(r *RNG, text string) (string, string) {
 }
 
 func runC09Text(c *Ctx, dir string) {
-	n := c.N(150, 4000)
+	n := c.N(600, 4000)
 	var cases []*c09TextCase
 	for i := 0; i < n; i++ {
 		if !c.Want("text", i) {
